@@ -8,6 +8,7 @@ HERE=$(cd "$(dirname "$0")/.." && pwd)
 REV=""
 if [ "$1" = "-R" ]; then REV="-R"; shift; fi
 PATCH=$1; shift
+case "$PATCH" in commit:*|/*) ;; *) PATCH="$(pwd)/$PATCH";; esac
 export GOFLAGS=-mod=mod GOPROXY=off GOTOOLCHAIN=local PATH=/opt/veriftools/go1.26.8/bin:$PATH
 unset GOWORK 2>/dev/null || true
 ( cd "$HERE/checker" && go build -o "$HERE/bin/gmqttlint" ./cmd/gmqttlint ) || exit 2
